@@ -15,13 +15,11 @@ namespace detail
 		template<typename genType>
 		GLM_FUNC_QUALIFIER static genType call(genType Source, genType Multiple)
 		{
+			genType const Remainder = std::fmod(Source, Multiple);
 			if (Source >= genType(0))
-				return Source - std::fmod(Source, Multiple);
+				return Remainder >= Multiple - Remainder ? Source - Remainder + Multiple : Source - Remainder;
 			else
-			{
-				genType Tmp = Source + genType(1);
-				return Tmp - std::fmod(Tmp, Multiple) - Multiple;
-			}
+				return -Remainder >= Multiple + Remainder ? Source - Remainder - Multiple : Source - Remainder;
 		}
 	};
 
@@ -31,13 +29,9 @@ namespace detail
 		template<typename genType>
 		GLM_FUNC_QUALIFIER static genType call(genType Source, genType Multiple)
 		{
-			if (Source >= genType(0))
-				return Source - Source % Multiple;
-			else
-			{
-				genType Tmp = Source + genType(1);
-				return Tmp - Tmp % Multiple - Multiple;
-			}
+			genType const Remainder = Source % Multiple;
+			genType const Floor = Source - Remainder;
+			return Remainder >= Multiple - Remainder ? static_cast<genType>(Floor + Multiple) : Floor;
 		}
 	};
 
@@ -47,13 +41,12 @@ namespace detail
 		template<typename genType>
 		GLM_FUNC_QUALIFIER static genType call(genType Source, genType Multiple)
 		{
+			genType const Remainder = Source % Multiple;
+			genType const Trunc = Source - Remainder;
 			if (Source >= genType(0))
-				return Source - Source % Multiple;
+				return Remainder >= Multiple - Remainder ? static_cast<genType>(Trunc + Multiple) : Trunc;
 			else
-			{
-				genType Tmp = Source + genType(1);
-				return Tmp - Tmp % Multiple - Multiple;
-			}
+				return -Remainder >= Multiple + Remainder ? static_cast<genType>(Trunc - Multiple) : Trunc;
 		}
 	};
 }//namespace detail
